@@ -151,6 +151,14 @@ C16_CoulombBound == \A c \in Confs : \A k \in Scored(c) : LET g == Gs(c)[k] IN
                       \A n \in 1..Len(g.cb) :
                          LET qi == IF g.cb[n][4] = "ION" /\ Abs(g.cb[n][5]) > 100 THEN Abs(g.cb[n][5]) ELSE 100 IN
                          Abs(g.cb[n][3]) * 100 <= (CoulMax + 2) * qi
+(* a Coulomb determinant comes from a charged titratable group or from an ion of the configured table - never from a
+   group that neither titrates nor is an ion (without a titrate-only list, which makes unlisted groups non-titrating
+   partners on purpose) *)
+C16_CoulombSource == R.opts.tonly = 0 =>
+                     \A c \in Confs : \A k \in Scored(c) : LET g == Gs(c)[k] IN
+                      \A n \in 1..Len(g.cb) :
+                         \/ g.cb[n][6] = 1
+                         \/ (g.cb[n][4] = "ION" /\ \E j \in ByGid(c, g.cb[n][1]) : Gs(c)[j].resn \in DOMAIN Cfg.ions)
 C16_SidechainBound == \A c \in Confs : \A k \in Scored(c) : LET g == Gs(c)[k] IN
                       \A n \in 1..Len(g.sc) :
                          \/ Abs(g.sc[n][3]) <= 2 * Scal.sidechain_interaction + 2
